@@ -9,3 +9,5 @@ import CheetahModel.Properties.C07
 #print axioms C07.quad_num_steps_independent
 #print axioms C07.drift_r56_closed
 #print axioms C07.drift_jacobian_is_linear_map
+#print axioms C07.quad_onmomentum_is_linear_map
+#print axioms C07.quad_transverse_jacobian
